@@ -14,7 +14,7 @@ import vlib
 SYSTEMS = ["Default", "Cargo", "Go", "Maven", "NPM", "NuGet", "PyPI", "RubyGems", "Composer"]
 LAWS = {
     "C01": {"refl", "antisym", "nontransitive", "nontransitive-unlawful", "history", "strcmp", "build",
-            "mutated", "sort-order", "sort-classes"},
+            "mutated", "sort-order", "sort-classes", "history-process"},
     "C02": {"ref", "normal-rejected"},
     "C10": {"canon-unparsable", "canon-differs", "canon-not-idempotent", "canonb-unparsable", "canonb-differs",
             "canonb-not-idempotent", "canon-collision", "canonb-collision", "pycanon"},
@@ -117,6 +117,24 @@ def run_system(sysname, tier, seed, wdir, vh, workers):
             raise vlib.Trouble("instantiation %s of %s is not injective" % (pname, sysname))
         vlib.write_ndjson(domf, recs)
         vlib.run_harness(vh, ["order", domf, obsf, str(seed)], timeout=3000)
+        # history independence across processes: the same questions asked in a fresh process that meets the
+        # versions in another (seeded) order must get the same answers (a cache keyed too coarsely shows here)
+        rng = random.Random(seed * 31 + len(pname))
+        perm = list(range(n))
+        rng.shuffle(perm)
+        domf2 = os.path.join(wdir, "dom_%s_%s.alt.ndjson" % (sysname, pname))
+        obsf2 = os.path.join(wdir, "obs_%s_%s.alt.ndjson" % (sysname, pname))
+        vlib.write_ndjson(domf2, [recs[k] for k in perm])
+        vlib.run_harness(vh, ["order", domf2, obsf2, str(seed + 1)], timeout=3000)
+        alt = vlib.read_ndjson(obsf2)[:n]
+        pos = {k: a for a, k in enumerate(perm)}     # original index -> row in alt
+        rows = vlib.read_ndjson(obsf)
+        for i in range(n):
+            ar = alt[pos[i]]
+            assert ar["text"] == recs[i]["text"]
+            rows[i]["cmpalt"] = [ar["cmp"][pos[j]] for j in range(n)]
+            rows[i]["okalt"] = ar["ok"]
+        vlib.write_ndjson(obsf, rows)
         r = vlib.tlc("OrderTrace", os.path.join(vlib.SPEC, "OrderTrace.cfg"), wdir,
                      env={"VERIF_DOM": domf, "VERIF_OBS": obsf, "VERIF_REJ": rejf, "VERIF_REF": ref},
                      workers=workers, timeout=3000 if tier == "thorough" else 900)
@@ -246,6 +264,16 @@ def replay(ctx, pid):
     obsf = os.path.join(wdir, "obs.ndjson")
     rejf = os.path.join(wdir, "rej")
     vlib.run_harness(vh, ["order", domf, obsf, str(ctx.seed)])
+    rows = vlib.read_ndjson(obsf)
+    domr = list(reversed(dom))
+    vlib.write_ndjson(domf + ".alt", domr)
+    vlib.run_harness(vh, ["order", domf + ".alt", obsf + ".alt", str(ctx.seed)])
+    alt = vlib.read_ndjson(obsf + ".alt")
+    m = len(dom)
+    for i in range(m):
+        rows[i]["cmpalt"] = [alt[m - 1 - i]["cmp"][m - 1 - j] for j in range(m)]
+        rows[i]["okalt"] = alt[m - 1 - i]["ok"]
+    vlib.write_ndjson(obsf, rows)
     r = vlib.tlc("OrderTrace", os.path.join(vlib.SPEC, "OrderTrace.cfg"), wdir,
                  env={"VERIF_DOM": domf, "VERIF_OBS": obsf, "VERIF_REJ": rejf, "VERIF_REF": ref}, workers=1, timeout=300)
     vlib.tlc_must_pass(r, "OrderTrace replay")
